@@ -849,8 +849,8 @@ pub fn run(run: &'static Run) {
         run.sub_with("fs-boundary", vkit::Opts::default().chunk(256), fs_generate, |c: &FsCase| fs_evaluate(c, &root, &worktree_of));
         drop(guard);
         if !run.is_replay() {
-            run.require("a search was stopped at the filesystem boundary", run.outcome_count("fs:stopped-at-boundary/none/no-repo-above") > 0);
-            run.require("a search crossed the filesystem boundary when allowed", run.outcome_count("fs:crossed/found/worktree/from-worktree") > 0);
+            require_unless_capped(run, "a search was stopped at the filesystem boundary", run.outcome_count("fs:stopped-at-boundary/none/no-repo-above") > 0);
+            require_unless_capped(run, "a search crossed the filesystem boundary when allowed", run.outcome_count("fs:crossed/found/worktree/from-worktree") > 0);
         }
     } else {
         run.assume("fs-boundary sub-check skipped: this process cannot mount a tmpfs (filesystem boundaries not covered in this run)");
@@ -858,8 +858,15 @@ pub fn run(run: &'static Run) {
 
     run.cov("oracle_calls_git", ORACLE_CALLS.load(std::sync::atomic::Ordering::Relaxed));
     run.cov("layouts", LAYOUTS.lock().unwrap().as_ref().map(|m| m.len()).unwrap_or(0));
-    run.require("some repository was found from inside a worktree under a ceiling", run.outcome_count("found/worktree/from-worktree+ceil") > 0);
-    run.require("some search was stopped by a ceiling", run.outcome_count("none/stopped-by-ceiling") > 0);
-    run.require("some linked worktree was found", run.outcome_count("found/linked/from-worktree") > 0);
-    run.require("some bare repository was found", run.outcome_count("found/repository/bare") + run.outcome_count("found/repository/from-git-dir") > 0);
+    require_unless_capped(run, "some repository was found from inside a worktree under a ceiling", run.outcome_count("found/worktree/from-worktree+ceil") > 0);
+    require_unless_capped(run, "some search was stopped by a ceiling", run.outcome_count("none/stopped-by-ceiling") > 0);
+    require_unless_capped(run, "some linked worktree was found", run.outcome_count("found/linked/from-worktree") > 0);
+    require_unless_capped(run, "some bare repository was found", run.outcome_count("found/repository/bare") + run.outcome_count("found/repository/from-git-dir") > 0);
+}
+
+/// Vacuity guards only make sense for runs that were not cut short by the time budget (then evidence says exhaustive=false).
+fn require_unless_capped(run: &Run, what: &str, cond: bool) {
+    if !run.over_budget() {
+        run.require(what, cond);
+    }
 }
